@@ -415,15 +415,38 @@ def check_partition(ctx, prog):
     ctx.analysed(g)
     loops = [s_ for s_ in ir.walk_stmts(g['body']) if s_.get('k') in ('for', 'while') and any(e.get('k') == 'call' and e.get('op') == '()' for e in ir.stmt_exprs(s_['body']))]
     okw = False
+    host, argmap = g, {}
+    if not loops:
+        # the strided loop may live in a helper that receives the functor and the three bounds
+        for c in fn_exprs(g):
+            if c.get('k') == 'call' and c.get('fn') and c.get('op') != '()':
+                for h in prog.fn(c['fn'], c.get('sig')):
+                    hl = [s_ for s_ in ir.walk_stmts(h.get('body') or {}) if s_.get('k') in ('for', 'while') and any(e.get('k') == 'call' and e.get('op') == '()' for e in ir.stmt_exprs(s_['body']))]
+                    if hl and not loops:
+                        loops, host = hl, h
+                        argmap = dict((p_['id'], a_) for p_, a_ in zip(h['params'], c.get('a', [])))
     if len(loops) == 1:
-        cl = q.counted_loop(g, loops[0])
+        cl = q.counted_loop(host, loops[0])
         if cl is None:
-            ctx.undecided('C13.partition', g['pq'], 'beginfN:iterates start + k*stride < end calling f(i) once', fwhere(g, loops[0]['l']), 'worker loop is not a recognised counting loop')
+            ctx.undecided('C13.partition', g['pq'], 'beginfN:iterates start + k*stride < end calling f(i) once', fwhere(host, loops[0]['l']), 'worker loop is not a recognised counting loop')
             return
         def fld(x):
-            return strip(q.expand(g, x)).get('f') if isinstance(x, dict) else None
-        calls = [e for st in cl['body'] for e in ir.stmt_exprs(st) if e.get('k') == 'call' and e.get('op') == '()' and strip(e['obj']).get('f') == 'f']
+            if not isinstance(x, dict):
+                return None
+            x = strip(q.expand(host, x))
+            if x.get('k') == 'var' and x.get('id') in argmap:
+                x = strip(q.expand(g, argmap[x['id']]))
+            return x.get('f')
+        def is_functor(o):
+            o = strip(o)
+            if o.get('k') == 'var' and o.get('id') in argmap:
+                o = strip(q.expand(g, argmap[o['id']]))
+            return o.get('f') == 'f'
+        calls = [e for st in cl['body'] for e in ir.stmt_exprs(st) if e.get('k') == 'call' and e.get('op') == '()' and is_functor(e['obj'])]
         okw = (fld(cl['init']) == 'i0' and cl['op'] == '<' and fld(cl['bound']) == 'i1' and fld(cl['step']) == 's' and len(calls) == 1 and strip(calls[0]['a'][0]).get('id') == cl['var'])
+    elif not loops:
+        ctx.undecided('C13.partition', g['pq'], 'beginfN:iterates start + k*stride < end calling f(i) once', fwhere(g), 'worker loop not found (neither in beginfN nor in a helper it calls)')
+        return
     ctx.check(okw, 'C13.partition', g['pq'], 'beginfN:iterates start + k*stride < end calling f(i) once', fwhere(g), 'for (i = s.i0; i < s.i1; i += s.s) s.f(i)',
               'beginfN does not iterate `for (i = start; i < end; i += stride) f(i)` over the context it was given')
 
@@ -449,8 +472,10 @@ def check_wrappers(ctx, prog):
         if cl is None:
             ctx.undecided('C13.wrappers', f['pq'], 'Semaphore::post(n):n posts', fwhere(f), 'post loop is not a recognised counting loop')
         else:
-            posts = [e for st in cl['body'] for e in ir.stmt_exprs(st) if e.get('k') == 'call' and e.get('fn') == 'sem_post']
-            other_posts = [e for e in fn_exprs(f) if e.get('k') == 'call' and e.get('fn') == 'sem_post' and e not in posts]
+            def is_post(e):
+                return e.get('k') == 'call' and (e.get('fn') == 'sem_post' or (e.get('pq') == 'asl::Semaphore::post' and not e.get('a')))
+            posts = [e for st in cl['body'] for e in ir.stmt_exprs(st) if is_post(e)]
+            other_posts = [e for e in fn_exprs(f) if is_post(e) and e not in posts]
             pid = f['params'][0]['id']
             okk = len(posts) == 1 and not other_posts and isinstance(cl['step'], int)
             if okk:
